@@ -139,7 +139,8 @@ pub struct EvidenceInput<'a> {
 }
 
 pub fn write_evidence(e: EvidenceInput) {
-    let dir = verif_dir().join("evidence");
+    // VERIF_EVIDENCE_DIR: trial runs against seeded changes must not overwrite the real evidence
+    let dir = std::env::var("VERIF_EVIDENCE_DIR").map(PathBuf::from).unwrap_or_else(|_| verif_dir().join("evidence"));
     std::fs::create_dir_all(&dir).ok();
     let c = e.counters;
     let mut samples = e.samples;
